@@ -479,6 +479,10 @@ func runStreams(cfg *Config) *Result {
 			stEndlessProbe(res)
 			return res
 		}
+		if err == nil && strings.HasPrefix(rp.Case, "stall ") {
+			stStallProbe(res)
+			return res
+		}
 		if err == nil {
 			err = json.Unmarshal([]byte(rp.Case), &c)
 		}
@@ -618,6 +622,7 @@ func runStreams(cfg *Config) *Result {
 	}
 	if cfg.Replay == "" {
 		stEndlessProbe(res)
+		stStallProbe(res)
 	}
 	return res
 }
